@@ -29,6 +29,10 @@ structure Node where
   kind : NodeKind
   /-- `Node::item_kind` -/
   item : Kind
+  /-- ghost: where the item comes from, fixed when the node is created (an import by its name, the
+      `k`-th instantiation, the named export of the source's provenance); it is what
+      `CompositionGraph::encode` realises for the node and never influences resolution -/
+  prov : Prov
 
 /-- `Edge::Argument(index)` from `src` to the instantiation `dst` -/
 structure ArgEdge where
@@ -60,6 +64,18 @@ def Graph.kindOf (g : Graph) (n : Nat) : Kind :=
   | some nd => nd.item
   | none => default
 
+def Graph.provOf (g : Graph) (n : Nat) : Prov :=
+  match g.node? n with
+  | some nd => nd.prov
+  | none => .imp []
+
+def NodeKind.isInst : NodeKind → Bool
+  | .inst _ => true
+  | _ => false
+
+/-- number of instantiation nodes -/
+def Graph.instCount (g : Graph) : Nat := (g.nodes.filter (·.kind.isInst)).length
+
 /-- `Exports.get_full`: index and kind -/
 def exportsIndex (n : Str) : Exports → Nat → Option (Nat × Kind)
   | .nil, _ => none
@@ -76,7 +92,7 @@ def Graph.import (g : Graph) (name : Str) (kind : Kind) : Except Diag (Graph × 
   if alHas name g.imports then .error (.duplicateImport name)
   else
     let id := g.nodes.length
-    .ok ({ g with nodes := g.nodes ++ [{ kind := .imp name, item := kind }], imports := g.imports ++ [(name, id)] }, id)
+    .ok ({ g with nodes := g.nodes ++ [{ kind := .imp name, item := kind, prov := .imp name }], imports := g.imports ++ [(name, id)] }, id)
 
 /-- `CompositionGraph::get_import_name` -/
 def Graph.getImportName (g : Graph) (n : Nat) : Option Str :=
@@ -90,7 +106,7 @@ def Graph.instantiate (g : Graph) (pkg : Nat) : Graph × Nat :=
     | some p => p.exports
     | none => .nil
   let id := g.nodes.length
-  ({ g with nodes := g.nodes ++ [{ kind := .inst pkg, item := .inst none exports }] }, id)
+  ({ g with nodes := g.nodes ++ [{ kind := .inst pkg, item := .inst none exports, prov := .inst g.instCount }] }, id)
 
 /-- the existing alias node for `(src, index)`, if any (scan of the outgoing alias edges) -/
 def findAlias (src index : Nat) : List Node → Nat → Option Nat
@@ -112,7 +128,7 @@ def Graph.aliasInstanceExport (g : Graph) (inst : Nat) (name : Str) : Option (Gr
       | some n => some (g, n)
       | none =>
         let id := g.nodes.length
-        some ({ g with nodes := g.nodes ++ [{ kind := .alias inst index, item := kind }] }, id)
+        some ({ g with nodes := g.nodes ++ [{ kind := .alias inst index, item := kind, prov := .exportOf (g.provOf inst) name }] }, id)
 
 /-- `CompositionGraph::get_alias_source`: source node and export name -/
 def Graph.getAliasSource (g : Graph) (n : Nat) : Option (Nat × Str) :=
@@ -501,29 +517,11 @@ def resolve (p : Program) (lib : Lib) : Except Diag Graph :=
 
 /-! ## reading the wiring off the graph (what `CompositionGraph::encode` emits) -/
 
-/-- provenance of every node, in node order: an alias refers to an earlier node -/
-def provs (g : Graph) : List Prov :=
-  let rec go (nodes : List Node) (acc : List Prov) (ninst : Nat) : List Prov :=
-    match nodes with
-    | [] => acc
-    | nd :: r =>
-      match nd.kind with
-      | .imp name => go r (acc ++ [.imp name]) ninst
-      | .inst _ => go r (acc ++ [.inst ninst]) (ninst + 1)
-      | .alias src index =>
-        let p := acc[src]?.getD (.imp [])
-        let name := match (g.kindOf src).instExports.bind (exportsAt · index) with
-          | some (n, _) => n
-          | none => []
-        go r (acc ++ [.exportOf p name]) ninst
-  go g.nodes [] 0
+def indexedFrom {α} (i : Nat) : List α → List (Nat × α)
+  | [] => []
+  | a :: r => (i, a) :: indexedFrom (i + 1) r
 
-def indexed {α} (l : List α) : List (Nat × α) :=
-  let rec go (l : List α) (i : Nat) : List (Nat × α) :=
-    match l with
-    | [] => []
-    | a :: r => (i, a) :: go r (i + 1)
-  go l 0
+def indexed {α} (l : List α) : List (Nat × α) := indexedFrom 0 l
 
 /-- unsatisfied imports of an instantiation node, in world order -/
 def unsatisfied (g : Graph) (node : Nat) (p : Package) : List (Str × Kind) :=
@@ -533,30 +531,50 @@ def unsatisfied (g : Graph) (node : Nat) (p : Package) : List (Str × Kind) :=
 def dedupNames {α} (l : List (Str × α)) : List (Str × α) :=
   l.foldl (fun acc (n, a) => if alHas n acc then acc else acc ++ [(n, a)]) []
 
-/-- `CompositionGraphEncoder::encode` at the level of wiring (`resolve_imports`: an unsatisfied
-    argument whose name is an explicit import is `ImplicitImportConflict`) -/
-def wiring (g : Graph) : Except Diag Composition :=
-  let pv := provs g
-  let insts : List (Nat × Package) := (indexed g.nodes).filterMap fun (i, nd) =>
+/-- the instantiation nodes (node id, package), in node order -/
+def instNodes (g : Graph) : List (Nat × Package) :=
+  (indexed g.nodes).filterMap fun (i, nd) =>
     match nd.kind with
     | .inst pkg => (g.packages[pkg]?).map fun p => (i, p)
     | _ => none
-  let implicit : List (Str × Kind) := insts.flatMap fun (i, p) => unsatisfied g i p
-  match implicit.find? (fun (n, _) => alHas n g.imports) with
+
+/-- the implicit imports `resolve_imports` creates: unsatisfied arguments, instantiation by instantiation -/
+def implicitOf (g : Graph) : List (Str × Kind) :=
+  (instNodes g).flatMap fun (i, p) => unsatisfied g i p
+
+/-- the explicit import nodes, in node order -/
+def explicitOf (g : Graph) : List (Str × Kind) :=
+  g.nodes.filterMap fun nd =>
+    match nd.kind with
+    | .imp name => some (name, nd.item)
+    | _ => none
+
+/-- name of the import with this index -/
+def argName (p : Package) (index : Nat) : Str :=
+  match exportsAt p.imports index with
+  | some (n, _) => n
+  | none => []
+
+/-- the `instantiate` item emitted for an instantiation node: argument edges, then implicit arguments -/
+def instRecord (g : Graph) (ip : Nat × Package) : Instantiation :=
+  { pkg := ip.2.name, ver := ip.2.version,
+    args := (g.edges.filter (·.dst == ip.1)).map (fun e => (argName ip.2 e.index, g.provOf e.src))
+            ++ (unsatisfied g ip.1 ip.2).map fun (n, _) => (n, Prov.imp n) }
+
+def instsOf (g : Graph) : List Instantiation := (instNodes g).map (instRecord g)
+
+def exportsOf (g : Graph) : List (Str × Prov × Kind) :=
+  g.exports.map fun (name, node) => (name, g.provOf node, g.kindOf node)
+
+/-- `CompositionGraphEncoder::encode` at the level of wiring (`resolve_imports`: an unsatisfied
+    argument whose name is an explicit import is `ImplicitImportConflict`) -/
+def wiring (g : Graph) : Except Diag Composition :=
+  match (implicitOf g).find? (fun (n, _) => alHas n g.imports) with
   | some (n, _) => .error (.importConflict n)
   | none =>
-    let explicit : List (Str × Kind) := g.nodes.filterMap fun nd =>
-      match nd.kind with
-      | .imp name => some (name, nd.item)
-      | _ => none
-    .ok {
-      imports := explicit ++ dedupNames implicit
-      instantiations := insts.map fun (i, p) =>
-        { pkg := p.name, ver := p.version,
-          args := (g.edges.filter (·.dst == i)).map (fun e =>
-                    ((match exportsAt p.imports e.index with | some (n, _) => n | none => []), pv[e.src]?.getD (.imp [])))
-                  ++ (unsatisfied g i p).map fun (n, _) => (n, Prov.imp n) }
-      exports := g.exports.map fun (name, node) => (name, pv[node]?.getD (.imp []), g.kindOf node) }
+    .ok { imports := explicitOf g ++ dedupNames (implicitOf g)
+          instantiations := instsOf g
+          exports := exportsOf g }
 
 /-- resolve, then encode -/
 def resolveModel (p : Program) (lib : Lib) : Except Diag Composition :=
